@@ -3,7 +3,7 @@ PROPS = {
  'C18': {
   'coq_files': ['Base/Bytes.v', 'Api/CodecProofs.v', 'Properties/C18.v'],
   'theorems': ['C18_url_query_roundtrip', 'C18_url_tuple_roundtrip', 'C18_proto_tuple_roundtrip', 'C18_proto_query_roundtrip',
-               'C18_proto_subject_kind', 'C18_json_tuple_roundtrip', 'C18_json_query_roundtrip', 'C18_string_roundtrip',
+               'C18_proto_subject_kind', 'C18_proto_decoders_total', 'C18_json_tuple_roundtrip', 'C18_json_query_roundtrip', 'C18_string_roundtrip',
                'C18_malformed_rejected', 'C18_parsed_has_one_subject', 'C18_print_parse_idempotent_refuted', 'C18_print_parse_idempotent_partial'],
   'suites': [{'name': 'C18', 'n_quick': 6000, 'n_thorough': 200000, 'shards_thorough': 4}],
   'rule': 'seeded generator: raw tuple text biased to the separators : # @ ( ), structured tuples/queries (valid, no-subject, both-subjects), arbitrary url.Values incl. duplicate/unknown keys, proto messages incl. absent subject, JSON documents incl. nulls/wrong types/case-folded keys; distinct = distinct input lines; non-trivial = every case exercises a real encode or decode function of ketoapi',
